@@ -111,7 +111,11 @@ void h_sort_buf(void)
 	REACH("sort_buf returns");
 #if CK >= 3
 	if (g_perm[0] == 2 && g_perm[1] == 0 && g_perm[2] == 1) REACH("last event moved to the front");
+#ifndef QS_STABLE
 	if (w_k0 == w_k1 && g_perm[0] == 1 && g_perm[1] == 0) REACH("an unstable qsort may swap equal clocks");
+#else
+	if (w_k0 == w_k1 && g_perm[0] == 0 && g_perm[1] == 1) REACH("equal clocks kept in order by a stable qsort");
+#endif
 	if (g_perm[0] == 0 && g_perm[1] == 1 && g_perm[2] == 2) REACH("already sorted");
 #endif
 }
@@ -156,4 +160,61 @@ void h_rebuild_ring(void)
 	if (w_rr_tail < w_rr_start) REACH("positions wrap around the end of the ring");
 	if (g_nev == RR_N - 1) REACH("whole window re-pointed");
 	if (g_nev == 0) REACH("nothing to re-point");
+}
+
+/* ================================================================= find_min_clock (bounded: CK header-only events) */
+#define MIN_LE(i) ((i) >= CK || RV <= CLK(src, i))
+#define MIN_EQ(i) ((i) < CK && RV == CLK(src, i))
+uint64_t c_find_min_clock(uint8_t *src, uint8_t *end)
+__CPROVER_requires(__CPROVER_is_fresh(src, EVSZ * CK) && end == src + EVSZ * CK)
+__CPROVER_requires((FLG(src, 0) == 0) && (1 >= CK || FLG(src, 1) == 0) && (2 >= CK || FLG(src, 2) == 0) && (3 >= CK || FLG(src, 3) == 0))
+__CPROVER_assigns(g_evsize_calls)
+/* the smallest clock (unsigned) of the region */
+__CPROVER_ensures(MIN_LE(0) && MIN_LE(1) && MIN_LE(2) && MIN_LE(3))
+__CPROVER_ensures(MIN_EQ(0) || MIN_EQ(1) || MIN_EQ(2) || MIN_EQ(3))
+;
+void h_find_min_clock(void)
+{
+	uint8_t *src, *end;
+	g_no_die = 1;
+	uint64_t m = find_min_clock(src, end);
+	(void) m;
+	REACH("find_min_clock returns");
+}
+
+/* ================================================================= ring_check (bounded: ring size RR_N) */
+/* returns iff the clocks of the ring entries start .. tail-1 are non-decreasing AS UNSIGNED 64-bit values
+ * (dies otherwise).  Note: sort_buf orders the same events with cmp_ev, i.e. as SIGNED values. */
+uint64_t g_rclk[RR_MAX];
+#define FROM(k) RCOUNT(start, (long long) (k))
+#define NCHK RCOUNT(start, (long long) r->tail)
+#define RC_ENTRY(k) ((k) >= RR_N || !(FROM(k) < NCHK) || (__CPROVER_is_fresh(r->ev[(k)], sizeof(struct ovni_ev_header)) && g_rclk[(k)] == r->ev[(k)]->header.clock))
+#define NXT(k) (((k) + 1) % RR_N)
+#define RC_PAIR(k) ((k) >= RR_N || !(FROM(k) + 1 < NCHK) || g_rclk[(k)] <= g_rclk[NXT(k)])
+#define RC_SORTED (RC_PAIR(0) && RC_PAIR(1) && RC_PAIR(2) && RC_PAIR(3) && RC_PAIR(4))
+int g_rc_sorted;
+void c_ring_check(struct ring *r, long long start)
+__CPROVER_requires(__CPROVER_is_fresh(r, sizeof(struct ring)) && r->size == RR_N && __CPROVER_is_fresh(r->ev, RR_N * sizeof(struct ovni_ev *)))
+__CPROVER_requires(0 <= r->tail && r->tail < RR_N && 0 <= start && start < RR_N)
+__CPROVER_requires(RC_ENTRY(0) && RC_ENTRY(1) && RC_ENTRY(2) && RC_ENTRY(3) && RC_ENTRY(4))
+/* a sorted window must not die: the die hook asserts !g_no_die */
+__CPROVER_requires(g_rc_sorted == (RC_SORTED ? 1 : 0) && g_no_die == g_rc_sorted)
+__CPROVER_assigns(g_died)
+__CPROVER_ensures(g_rc_sorted == 1)
+;
+void h_ring_check(void)
+{
+	struct ring *r; long long start;
+	ring_check(r, start);
+	REACH("ring_check returns on a sorted window");
+}
+void h_ring_check_dies(void)
+{
+	/* the other direction is reachable: an unsorted window is fatal */
+	struct ovni_ev a, b; struct ovni_ev *tab[3] = { &a, &b, NULL }; struct ring r = { .head = 0, .tail = 2, .size = 3, .ev = tab };
+	__CPROVER_assume(b.header.clock < a.header.clock);
+	g_no_die = 0;
+	REACH("ring_check on an unsorted window attempted");
+	ring_check(&r, 0);
+	VASSERT(0, "ring_check must die on an unsorted window");
 }
